@@ -171,6 +171,7 @@ type c19World struct {
 	denoms  []string // reward denominations watched
 	macc    sdk.AccAddress
 	lockers bool
+	x       *c19X // external-programme fixtures (c19_ext_test.go), nil in the plain gauge worlds
 }
 
 func c19Addr(i int) sdk.AccAddress {
@@ -561,42 +562,6 @@ func (w *c19World) computeDist(meta rewardstypes.LiquidtyGaugeMetaData, coin sdk
 	return d
 }
 
-type c19ExtSnap struct {
-	rec    rewardstypes.LockerExternalRewards
-	count  uint64
-	nets   []string
-	recv   []string
-	owners []sdk.AccAddress
-	total  string
-}
-
-func (w *c19World) extSnaps() []c19ExtSnap {
-	var out []c19ExtSnap
-	for _, e := range w.app.Rewardskeeper.GetExternalRewardsLockers(w.ctx) {
-		s := c19ExtSnap{rec: e}
-		ep, _ := w.app.Rewardskeeper.GetEpochTime(w.ctx, e.EpochId)
-		s.count = ep.Count
-		lk, _ := w.app.LockerKeeper.GetLockerLookupTable(w.ctx, e.AppMappingId, e.AssetId)
-		s.total = lk.DepositedAmount.String()
-		for _, id := range lk.LockerIds {
-			l, found := w.app.LockerKeeper.GetLocker(w.ctx, id)
-			if !found {
-				continue
-			}
-			s.nets = append(s.nets, l.NetBalance.String())
-			a, _ := sdk.AccAddressFromBech32(l.Depositor)
-			s.owners = append(s.owners, a)
-			ix, known := w.acctIx[a.String()]
-			if !known {
-				ix = 9999
-			}
-			s.recv = append(s.recv, strconv.Itoa(ix))
-		}
-		out = append(out, s)
-	}
-	return out
-}
-
 func (w *c19World) balSnap() map[string]sdkmath.Int {
 	m := map[string]sdkmath.Int{}
 	for i, a := range w.accts {
@@ -633,7 +598,8 @@ func (w *c19World) block(gap time.Duration) {
 		}
 		tr.Line("gauge.dist", u(g.Id), u(alloc), d.mode, c19csvS(d.mpos), child, d.outcome, c19csvS(d.recv), c19csvS(d.rewards))
 	}
-	exBefore := w.extSnaps()
+	w.xSnapshot()
+	xBefore := w.xCounts()
 	balBefore := w.balSnap()
 	gaugesBefore := map[uint64]uint64{}
 	for _, g := range w.app.Rewardskeeper.GetAllGauges(w.ctx) {
@@ -643,25 +609,6 @@ func (w *c19World) block(gap time.Duration) {
 	rewards.BeginBlocker(w.ctx, abci.RequestBeginBlock{}, w.app.Rewardskeeper)
 
 	balAfter := w.balSnap()
-	exAfter := w.extSnaps()
-	for i, b := range exBefore {
-		a := exAfter[i]
-		if a.count != b.count { // the programme paid its day
-			daysLeft := b.rec.DurationDays - int64(b.count)
-			var paid []string
-			for _, o := range b.owners {
-				ix := w.acctIx[o.String()]
-				key := b.rec.TotalRewards.Denom + ":" + strconv.Itoa(ix)
-				paid = append(paid, balAfter[key].Sub(balBefore[key]).String())
-			}
-			tr.Line("gauge.extpay", u(b.rec.Id), b.rec.AvailableRewards.Amount.String(), i64(daysLeft), b.total, c19csvS(b.nets), c19csvS(b.recv), c19csvS(paid))
-			tr.Count("ext:pay")
-		}
-		if b.rec.IsActive && !a.rec.IsActive {
-			tr.Line("gauge.extoff", u(b.rec.Id))
-			tr.Count("ext:off")
-		}
-	}
 	tr.Line("gauge.run", "ok")
 
 	var es []string
@@ -689,14 +636,7 @@ func (w *c19World) block(gap time.Duration) {
 		}
 	}
 	tr.Line("gauge.gauges", strings.Join(gs, ";"))
-	var xs []string
-	for _, s := range exAfter {
-		xs = append(xs, strings.Join([]string{u(s.rec.Id), s.rec.TotalRewards.Denom, s.rec.AvailableRewards.Amount.String(), strconv.FormatBool(s.rec.IsActive)}, ":"))
-	}
-	if len(xs) == 0 {
-		xs = []string{"-"}
-	}
-	tr.Line("gauge.exts", strings.Join(xs, ";"))
+	w.xRecords(xBefore)
 	var bs []string
 	for _, c := range w.app.BankKeeper.GetAllBalances(w.ctx, w.macc) {
 		bs = append(bs, c.Denom+":"+c.Amount.String())
@@ -742,22 +682,7 @@ func (w *c19World) setupLockers(nets []int64) {
 }
 
 func (w *c19World) createExt(creator int, denom string, amount sdkmath.Int, days int64, fundIt bool) bool {
-	from := w.acct(creator)
-	if fundIt {
-		w.fund(from, sdk.NewCoins(sdk.NewCoin(denom, amount)))
-	}
-	funds := w.app.BankKeeper.GetBalance(w.ctx, from, denom).Amount
-	err := w.deliver(&rewardstypes.ActivateExternalRewardsLockers{AppMappingId: 1, AssetId: 1, TotalRewards: sdk.Coin{Denom: denom, Amount: amount}, DurationDays: days, Depositor: from.String(), MinLockupTimeSeconds: 1})
-	outcome, eid := "err", uint64(0)
-	if err == nil {
-		outcome = "ok"
-		eid = w.app.Rewardskeeper.GetExternalRewardsLockersID(w.ctx)
-		w.tr.Count("ext:create-ok")
-	} else {
-		w.tr.Count("ext:create-err")
-	}
-	w.tr.Line("gauge.extnew", u(eid), denom, amount.String(), funds.String(), outcome)
-	return err == nil
+	return w.createProg(c19ProgSpec{kind: "L", creator: creator, denom: denom, amount: amount, days: days, minLock: 1, fundIt: fundIt, asset: 1})
 }
 
 // find the pool-coin amount whose redeemable quote amount is exactly x (the real CalculateXYFromPoolCoin is monotone)
@@ -1189,6 +1114,9 @@ func TestC19(t *testing.T) {
 	c19Witness1e12(t, tr)
 	c19WitnessZeroEpochs(t, tr)
 	c19WitnessExtOverpay(t, tr)
+	c19WitnessLendValueAsAmount(t, tr)
+	c19WitnessLendTruncatedTotal(t, tr)
+	c19LendSameBlockCase(t, tr)
 	c19GuardCase(t, tr)
 	c19MasterChildCase(t, tr)
 	c19Split(tr, rng)
@@ -1198,4 +1126,17 @@ func TestC19(t *testing.T) {
 	for s := 0; s < n; s++ {
 		c19Lifecycle(t, tr, rng, s)
 	}
+	c19XWorlds(t, tr, rng)
+}
+
+// developer aid (not part of the check): only the external-programme corpus and worlds
+func TestC19XOnly(t *testing.T) {
+	tr := OpenTrace(t, "c19x.trace")
+	defer tr.Close(t)
+	rng := NewRng(seed())
+	c19WitnessExtOverpay(t, tr)
+	c19WitnessLendValueAsAmount(t, tr)
+	c19WitnessLendTruncatedTotal(t, tr)
+	c19LendSameBlockCase(t, tr)
+	c19XWorlds(t, tr, rng)
 }
